@@ -13,6 +13,7 @@ CONSTANTS
  MaxFailBursts = 0
  MaxSteps = 1000000
  Fine = FALSE
+ FineCtls = {"tx", "prop", "cfg", "mast", "conn"}
  FineClients = FALSE
  AllPaths <- PU_All
  GoParent <- PU_GoParent
